@@ -14,7 +14,7 @@ SPEC = dict(
          'unknown platform, patterns matching several chips (nct, isa, .*, empty), patterns that do not compile; fan selector by index or by '
          'rpmChannel, existing or not, pwmChannel defaulted / another existing channel / arbitrary; sensor index existing, just past the end, '
          'the file number instead of the ordinal; hostile stream adds neither/both selectors, negative index/pwmChannel, index <= 0. '
-         'Every third tree additionally gets a chip with NO fan and NO temperature input (empty directory without a name file / only a name file / only *_label, in0_*, power1_* files; with 4 chips one of the generated chips is stripped instead, so entries may name it), run with that chip enumerated first, last and between the others; chips whose features all lack an input occur in the ordinary stream too. hwmon.GetChips, InitializeObjects, RunDaemon and the registry read-back each run under recover per case: a panic (or a nil controller dereferenced by the binding code) is the observation OCrash, which the model never produces and the observer rejects, and the driver continues. Half of the structured cases aim every entry at an existing device (successful start-up). The first 12 (thorough: 100) failing '
+         'Every third tree additionally gets a chip with NO fan and NO temperature input (empty directory without a name file / only a name file / only *_label, in0_*, power1_* files; with 4 chips one of the generated chips is stripped instead, so entries may name it), run with that chip enumerated first, last and between the others; chips whose features all lack an input occur in the ordinary stream too. hwmon.GetChips, InitializeObjects, RunDaemon and the registry read-back each run under recover per case: a panic (or a nil controller dereferenced by the binding code) is the observation OCrash, which the model never produces and the observer rejects, and the driver continues. Device file CONTENT at discovery time varies: a third of the tempN_input files read 0 / negative / empty / garbage / are unreadable (a directory: EISDIR), a quarter of the fanN_input files (and their pwmN) read 0 / empty / garbage / unreadable, at arbitrary positions relative to the selected device; the model is unchanged (position and channel depend on file presence only). Half of the structured cases aim every entry at an existing device (successful start-up). The first 12 (thorough: 100) failing '
          'start-ups are additionally pushed through internal.RunDaemon in-process (ui.Fatal vs runtime error). '
          'Non-trivial = at least two chips and at least one entry; distinct = distinct Coq case terms.',
     assumptions=['regexp oracle: valid p = regexp.Compile("(?i)"+p) succeeds, matches p platform = regexp.MatchString("(?i)"+p, platform); '
